@@ -86,8 +86,8 @@ impl Gen for u32 {
             "relative_depth" => vec![0],
             "local_index" => (0..7).collect(),
             "global_index" => (0..7).collect(),
-            "mem" | "src_mem" | "dst_mem" => vec![0, 1],
-            "table_index" | "table" | "src_table" | "dst_table" => vec![0, 1],
+            "mem" | "src_mem" | "dst_mem" => vec![0, 1, 2],
+            "table_index" | "table" | "src_table" | "dst_table" => vec![0, 1, 2],
             "function_index" => vec![0, 1],
             "type_index" => vec![0],
             "data_index" | "array_data_index" => vec![0, 1],
@@ -164,10 +164,13 @@ impl Gen for [u8; 16] {
 impl Gen for wp::MemArg {
     fn gen(_: &str) -> Vec<Self> {
         let mut v = vec![];
-        for memory in [0u32, 1] {
+        for memory in [0u32, 1, 2] {
             for align in 0u8..=4 {
                 for offset in [0u64, 1, 127, 128, 0xffff_ffff, 0x1_0000_0000, 0x1_0000_0001, u64::MAX >> 1] {
-                    if memory == 0 && offset > 0xffff_ffff {
+                    if memory != 1 && offset > 0xffff_ffff {
+                        continue;
+                    }
+                    if memory == 2 && ![0u64, 128].contains(&offset) {
                         continue;
                     }
                     v.push(wp::MemArg { align, max_align: align, offset, memory });
@@ -236,7 +239,8 @@ pub const SUPPORTED_PROPOSALS: [&str; 9] = ["mvp", "sign_extension", "saturating
 pub const STRUCTURED: [&str; 6] = ["Block", "Loop", "If", "Else", "End", "BrTable"];
 
 // ---- the probe module ------------------------------------------------------------------------
-// func 0 (probe) and 1: type ()->() ; table 0 funcref, 1 externref ; memory 0 i32 shared, 1 i64 shared ;
+// func 0 (probe) and 1: type ()->() ; table 0 funcref, 1 externref, 2 funcref ; memory 0 i32 shared, 1 i64 shared, 2 i32 shared ;
+// (two entities of the same kind and type, so that operators with two operands of one kind can name different ones)
 // globals 0..6 one mutable global per type ; elem 0 passive funcref funcs, 1 passive externref exprs ;
 // data 0, 1 passive ; locals 0..6 of the probe function one per type.
 
@@ -253,10 +257,12 @@ pub fn probe_module(body: &dyn Fn(&mut we::Function)) -> Vec<u8> {
     let mut tables = TableSection::new();
     tables.table(TableType { element_type: RefType::FUNCREF, table64: false, minimum: 4, maximum: None, shared: false });
     tables.table(TableType { element_type: RefType::EXTERNREF, table64: false, minimum: 4, maximum: None, shared: false });
+    tables.table(TableType { element_type: RefType::FUNCREF, table64: false, minimum: 4, maximum: None, shared: false });
     m.section(&tables);
     let mut mems = MemorySection::new();
     mems.memory(MemoryType { minimum: 1, maximum: Some(2), memory64: false, shared: true, page_size_log2: None });
     mems.memory(MemoryType { minimum: 1, maximum: Some(2), memory64: true, shared: true, page_size_log2: None });
+    mems.memory(MemoryType { minimum: 1, maximum: Some(2), memory64: false, shared: true, page_size_log2: None });
     m.section(&mems);
     let mut globals = GlobalSection::new();
     for t in TS {
@@ -329,10 +335,10 @@ fn classify(space: &str, idx: u32) -> RefClass {
     match (space, idx) {
         ("func", _) => RefClass::FuncVoid,
         ("type", _) => RefClass::TypeVoid,
-        ("table", 0) => RefClass::TableFunc,
-        ("table", _) => RefClass::TableExtern,
-        ("memory", 0) => RefClass::Mem32,
-        ("memory", _) => RefClass::Mem64,
+        ("table", 1) => RefClass::TableExtern,
+        ("table", _) => RefClass::TableFunc,
+        ("memory", 1) => RefClass::Mem64,
+        ("memory", _) => RefClass::Mem32,
         ("global", k) => RefClass::Global(TS[k as usize % 7]),
         ("data", _) => RefClass::Data,
         ("elem", 0) => RefClass::ElemFunc,
@@ -490,37 +496,57 @@ pub fn table() -> &'static OpTable {
     TABLE.get_or_init(build)
 }
 
-/// Re-targets the entity operands of a probed operator into another module.
+/// Re-targets the entity operands of a probed operator into another module.  Each operand is drawn
+/// independently from the candidates of its class, so two operands of one kind may name different entities.
 pub struct Remap {
-    pub func: [u32; 2],
+    pub func: Vec<u32>,
     pub ty: u32,
-    pub table: [u32; 2],
-    pub memory: [u32; 2],
-    pub global: [u32; 7],
-    pub data: [u32; 2],
-    pub elem: [u32; 2],
+    pub table_func: Vec<u32>,
+    pub table_extern: Vec<u32>,
+    pub mem32: Vec<u32>,
+    pub mem64: Vec<u32>,
+    pub global: [Vec<u32>; 7],
+    pub data: Vec<u32>,
+    pub elem_func: Vec<u32>,
+    pub elem_extern: Vec<u32>,
+    pub state: u64,
+}
+impl Remap {
+    fn pick(&mut self, v: &[u32]) -> u32 {
+        if v.is_empty() {
+            return 0;
+        }
+        self.state = self.state.wrapping_mul(6364136223846793005).wrapping_add(1442695040888963407);
+        v[((self.state >> 33) as usize) % v.len()]
+    }
 }
 impl Reencode for Remap {
     type Error = std::convert::Infallible;
-    fn function_index(&mut self, i: u32) -> u32 {
-        self.func[i as usize % 2]
+    fn function_index(&mut self, _i: u32) -> u32 {
+        let v = self.func.clone();
+        self.pick(&v)
     }
     fn type_index(&mut self, _i: u32) -> u32 {
         self.ty
     }
     fn table_index(&mut self, i: u32) -> u32 {
-        self.table[i as usize % 2]
+        let v = if i == 1 { self.table_extern.clone() } else { self.table_func.clone() };
+        self.pick(&v)
     }
     fn memory_index(&mut self, i: u32) -> u32 {
-        self.memory[i as usize % 2]
+        let v = if i == 1 { self.mem64.clone() } else { self.mem32.clone() };
+        self.pick(&v)
     }
     fn global_index(&mut self, i: u32) -> u32 {
-        self.global[i as usize % 7]
+        let v = self.global[i as usize % 7].clone();
+        self.pick(&v)
     }
-    fn data_index(&mut self, i: u32) -> u32 {
-        self.data[i as usize % 2]
+    fn data_index(&mut self, _i: u32) -> u32 {
+        let v = self.data.clone();
+        self.pick(&v)
     }
     fn element_index(&mut self, i: u32) -> u32 {
-        self.elem[i as usize % 2]
+        let v = if i == 1 { self.elem_extern.clone() } else { self.elem_func.clone() };
+        self.pick(&v)
     }
 }
